@@ -183,6 +183,12 @@ func linear(h *history, pool *utils.StablePool, bf *utils.BroadcastFlag, fl *uti
 				case <-fl.Signal():
 					v = 1
 				case <-time.After(3 * time.Millisecond):
+					// a stalled goroutine may find both cases ready and be handed the timer: look again
+					select {
+					case <-fl.Signal():
+						v = 1
+					default:
+					}
 				}
 			default:
 				k = "unknown-op"
